@@ -27,7 +27,7 @@ structure WMsg where
   writer : Nat
   seq : Nat
   label : Nat := 0
-  deriving Repr, DecidableEq, BEq
+  deriving Repr, DecidableEq
 
 /-- shared state: the atomic counter (`server_seq`, starts at 1), per writer the number it has
 allocated and not yet written, and the wire (in write order = order of `io.lock()` acquisition) -/
@@ -75,22 +75,35 @@ inductive Cmd
   | initialize | launch | setBreakpoints | configurationDone | threads | stackTrace | scopes
   | variables | continue_ | next | stepIn | stepOut | pause | evaluate | disconnect | terminate
   | terminateThreads | frobnicate
-  deriving Repr, DecidableEq, BEq
+  deriving Repr, DecidableEq
+
+/-- the protocol name of a command (`frobnicate` stands for any command `dispatch` does not know) -/
+def cmdName : Cmd → String
+  | .initialize => "initialize" | .launch => "launch" | .setBreakpoints => "setBreakpoints"
+  | .configurationDone => "configurationDone" | .threads => "threads" | .stackTrace => "stackTrace"
+  | .scopes => "scopes" | .variables => "variables" | .continue_ => "continue" | .next => "next"
+  | .stepIn => "stepIn" | .stepOut => "stepOut" | .pause => "pause" | .evaluate => "evaluate"
+  | .disconnect => "disconnect" | .terminate => "terminate" | .terminateThreads => "terminateThreads"
+  | .frobnicate => "frobnicate"
+
+def allCmds : List Cmd :=
+  [.initialize, .launch, .setBreakpoints, .configurationDone, .threads, .stackTrace, .scopes, .variables,
+   .continue_, .next, .stepIn, .stepOut, .pause, .evaluate, .disconnect, .terminate, .terminateThreads, .frobnicate]
 
 /-- argument mutation of a request (see harness `build_args`) -/
 inductive Mut
   | valid | missing | illtyped | noargs | nofile
-  deriving Repr, DecidableEq, BEq
+  deriving Repr, DecidableEq
 
 /-- `debugger: Option<Debugger>` together with the debugger's `ExecutionStatus` -/
 inductive Dbg
   | none | unload | inProgress | exited
-  deriving Repr, DecidableEq, BEq
+  deriving Repr, DecidableEq
 
 /-- what the debuggee did during a fallible debugger call (observed, not predicted) -/
 inductive Outcome
   | stop (reason : String) | exit | none
-  deriving Repr, DecidableEq, BEq
+  deriving Repr, DecidableEq
 
 structure Hint where
   outcome : Outcome := .none
@@ -99,25 +112,33 @@ structure Hint where
   evalOk : Bool := false
   deriving Repr
 
-/-- events as they appear on the wire (bodies dropped) -/
-inductive Ev
-  | initialized | capabilities | process | moduleNew | moduleRemoved | sourceNew | sourceRemoved
-  | threadStarted | threadExited | stopped (reason : String) | continued | bpChanged | bpRemoved
-  | exited | terminated
-  deriving Repr, DecidableEq, BEq
+/-- events the session puts into its queue and `send_events` forwards unchanged (bodies dropped;
+progress events are canonicalised away by the harness and not modelled) -/
+inductive QEv
+  | capabilities | process | moduleNew | sourceNew | threadStarted | threadExited
+  | stopped (reason : String) | continued | bpChanged | bpRemoved
+  deriving Repr, DecidableEq
 
-/-- `InternalEvent` (the queue); progress events are canonicalised away by the harness and not modelled -/
+/-- events as they appear on the wire -/
+inductive Ev
+  | q (e : QEv)          -- from the queue
+  | initialized          -- `send_event("initialized")` in `handle_initialize`: never queued
+  | moduleRemoved | sourceRemoved | threadExitedAtEnd   -- `emit_process_end` (direct sends inside `drain_events`)
+  | exited | terminated  -- lifecycle, only from `drain_events`
+  deriving Repr, DecidableEq
+
+/-- `InternalEvent` (the queue) -/
 inductive IEv
-  | ev (e : Ev)      -- any non-lifecycle queued event: sent as `e` by `send_events`
+  | ev (e : QEv)
   | exited
   | terminated
-  deriving Repr, DecidableEq, BEq
+  deriving Repr, DecidableEq
 
 inductive Msg
   | resp (cmd : Cmd) (ok : Bool) (rseq : Nat)
   | event (e : Ev)
   | sessionEnd            -- `run` returned `Ok(())`: the adapter closes the session
-  deriving Repr, DecidableEq, BEq
+  deriving Repr, DecidableEq
 
 structure Req where
   seq : Nat
@@ -137,40 +158,68 @@ structure Sess where
 
 /-- `emit_process_end`: `module`/`loadedSource` removed if `module_info` is set (taken), then one
 `thread exited` per cached thread (count observed) -/
-def processEnd (s : Sess) (nThreads : Nat) : Sess × List Msg :=
-  ({ s with moduleInfo := false },
-   (if s.moduleInfo then [Msg.event .moduleRemoved, Msg.event .sourceRemoved] else [])
-     ++ List.replicate nThreads (Msg.event .threadExited))
+def processEndMsgs (moduleInfo : Bool) (nThreads : Nat) : List Msg :=
+  (if moduleInfo then [Msg.event .moduleRemoved, Msg.event .sourceRemoved] else [])
+    ++ List.replicate nThreads (Msg.event .threadExitedAtEnd)
 
 def IEv.isExited : IEv → Bool | .exited => true | _ => false
 def IEv.isTerminated : IEv → Bool | .terminated => true | _ => false
 
-/-- `send_events(|_| true, ..)` over a batch without lifecycle events (those are skipped there) -/
+/-- `send_events(|_| true, ..)` over a batch (lifecycle entries are skipped there) -/
 def sendAll : List IEv → List Msg
   | [] => []
-  | .ev e :: r => Msg.event e :: sendAll r
+  | .ev e :: r => Msg.event (.q e) :: sendAll r
   | _ :: r => sendAll r
 
 /-- `drain_events`.  `nThreads` = size of `thread_cache` when the process ends (observed).
-In the lifecycle branches only `Output` events of the batch are sent; the session never queues
-`Output` in the modelled handlers, so nothing of the batch survives. -/
-def drain (s : Sess) (nThreads : Nat := 0) : Sess × List Msg :=
+In the lifecycle branches only `Output` events of the batch are sent; the modelled handlers never queue
+`Output`, so nothing of the batch survives. -/
+def drain (s : Sess) (nThreads : Nat) : Sess × List Msg :=
   let q := s.queue
   let s := { s with queue := [] }
   if s.terminated then (s, [])
   else if q.any IEv.isExited then
-    let (s, pe) := processEnd s nThreads
-    ({ s with terminated := true }, pe ++ [Msg.event .exited, Msg.event .terminated])
+    ({ s with terminated := true, moduleInfo := false },
+     processEndMsgs s.moduleInfo nThreads ++ [Msg.event .exited, Msg.event .terminated])
   else if q.any IEv.isTerminated then
-    let (s, pe) := processEnd s nThreads
-    ({ s with terminated := true }, pe ++ [Msg.event .terminated])
+    ({ s with terminated := true, moduleInfo := false },
+     processEndMsgs s.moduleInfo nThreads ++ [Msg.event .terminated])
   else (s, sendAll q)
 
-def enqueue (s : Sess) (es : List IEv) : Sess := { s with queue := s.queue ++ es }
+/-- the atomic actions a handler is made of: its *skeleton* is a list of these -/
+inductive Act
+  | respond (ok : Bool)      -- `send_response_raw` for the request being handled
+  | sendInitialized          -- `send_event("initialized")`: the only event sent without going through the queue
+  | enq (es : List IEv)      -- `enqueue_event` (several)
+  | drain (nThreads : Nat)   -- `drain_events()`
+  | setDbg (d : Dbg)         -- the debugger appears / changes execution status / is dropped
+  | setModuleInfo            -- `emit_process_start` records `module_info`
+  | setBp (k : Nat)          -- breakpoint records of the source
+  | resetLatch               -- `self.terminated = false` (`handle_launch`)
+  | endSession               -- `run` leaves its loop
+  deriving Repr
+
+def execAct (r : Req) (s : Sess) : Act → Sess × List Msg
+  | .respond ok => (s, [.resp r.cmd ok r.seq])
+  | .sendInitialized => (s, [.event .initialized])
+  | .enq es => ({ s with queue := s.queue ++ es }, [])
+  | .drain n => drain s n
+  | .setDbg d => ({ s with dbg := d }, [])
+  | .setModuleInfo => ({ s with moduleInfo := true }, [])
+  | .setBp k => ({ s with bpRecords := k }, [])
+  | .resetLatch => ({ s with terminated := false }, [])
+  | .endSession => ({ s with alive := false }, [.sessionEnd])
+
+def exec (r : Req) : Sess → List Act → Sess × List Msg
+  | s, [] => (s, [])
+  | s, a :: rest =>
+    let (s1, o1) := execAct r s a
+    let (s2, o2) := exec r s1 rest
+    (s2, o1 ++ o2)
 
 /-- result of a handler: `Ok(true)`-continue, `Err(_)`, or `Ok(false)` (disconnect / terminate) -/
 inductive HRes | ok | err | stop
-  deriving Repr, DecidableEq, BEq
+  deriving Repr, DecidableEq
 
 /-- commands whose required argument is absent under the mutation (handler returns `Err` in its
 argument validation) -/
@@ -187,121 +236,105 @@ def threadEvents (h : Hint) : List IEv :=
 
 /-- `emit_stop_reason` after the filters: exit → queue `Exited`, drain; stop → refresh threads, queue
 `Stopped`, drain -/
-def emitStop (s : Sess) (h : Hint) : Sess × List Msg :=
+def emitStop (h : Hint) : List Act :=
   match h.outcome with
-  | .exit => drain (enqueue { s with dbg := .exited } [.exited]) h.threadsExited
-  | .stop r => drain (enqueue { s with dbg := .inProgress } (threadEvents h ++ [.ev (.stopped r)]))
-  | .none => (s, [])
-
-/-- shared skeleton of `next`, `stepIn`, `stepOut` -/
-def stepHandler (s : Sess) (r : Req) (h : Hint) : Sess × List Msg × HRes :=
-  match s.dbg with
-  | .none => (s, [], .err)                                   -- `ok_or_else(..)?`
-  | .unload | .exited => (s, [.resp r.cmd false r.seq], .ok)   -- `Err(e) => send_err(..)`
-  | .inProgress =>
-    match h.outcome with
-    | .stop _ =>
-      let s := enqueue s [.ev .continued]
-      let (s, d) := drain (enqueue s [.ev (.stopped "step")])
-      (s, [.resp r.cmd true r.seq] ++ d, .ok)
-    | .exit =>
-      let s := enqueue { s with dbg := .exited } [.ev .continued]
-      let (s, d) := drain (enqueue s [.exited]) h.threadsExited
-      (s, [.resp r.cmd true r.seq] ++ d, .ok)
-    | .none => (s, [.resp r.cmd false r.seq], .ok)
+  | .exit => [.setDbg .exited, .enq [.exited], .drain h.threadsExited]
+  | .stop r => [.setDbg .inProgress, .enq (threadEvents h ++ [.ev (.stopped r)]), .drain 0]
+  | .none => []
 
 /-- `terminate_debuggee(); drain_events()` -/
-def terminateDebuggee (s : Sess) (h : Hint) : Sess × List Msg :=
-  drain (enqueue { s with dbg := .none } [.terminated]) h.threadsExited
+def terminateDebuggee (h : Hint) : List Act :=
+  [.setDbg .none, .enq [.terminated], .drain h.threadsExited]
 
-/-- `dispatch`: the handler skeletons.  Returns the new state, what the handler wrote, and its result. -/
-def dispatch (s : Sess) (r : Req) (h : Hint) : Sess × List Msg × HRes :=
+/-- shared skeleton of `next`, `stepIn`, `stepOut` -/
+def stepPlan (dbg : Dbg) (h : Hint) : List Act × HRes :=
+  match dbg with
+  | .none => ([], .err)                                   -- `ok_or_else(..)?`
+  | .unload | .exited => ([.respond false], .ok)          -- `Err(e) => send_err(..)`
+  | .inProgress =>
+    match h.outcome with
+    | .stop _ => ([.enq [.ev .continued], .respond true, .enq [.ev (.stopped "step")], .drain 0], .ok)
+    | .exit => ([.setDbg .exited, .enq [.ev .continued], .respond true, .enq [.exited], .drain h.threadsExited], .ok)
+    | .none => ([.respond false], .ok)
+
+/-- `dispatch`: the handler skeletons — for each command the order of {validate arguments, fallible
+debugger call, send response, enqueue events, drain} as a list of actions, and the handler's result.
+Control flow depends on the session only through `dbg` and the number of breakpoint records. -/
+def plan (dbg : Dbg) (bpRecords : Nat) (r : Req) (h : Hint) : List Act × HRes :=
   match r.cmd with
-  | .initialize => (s, [.resp r.cmd true r.seq, .event .initialized], .ok)   -- `send_event`: not queued
+  | .initialize => ([.respond true, .sendInitialized], .ok)   -- `send_event`: not queued
   | .launch =>
-    if badArgs r.cmd r.mutn then (s, [], .err)
+    if badArgs r.cmd r.mutn then ([], .err)
+    else if r.mutn == .nofile then
+      ([.resetLatch, .enq [.ev .capabilities], .drain 0], .err)        -- `build_debugger(..)?`
     else
-      let s := { s with terminated := false }
-      let (s, d1) := drain (enqueue s [.ev .capabilities])
-      if r.mutn == .nofile then (s, d1, .err)                    -- `build_debugger(..)?`
-      else
-        let s := enqueue { s with dbg := .unload, moduleInfo := true } [.ev .process, .ev .moduleNew, .ev .sourceNew]
-        let (s, d2) := drain s
-        (s, d1 ++ [.resp r.cmd true r.seq] ++ d2, .ok)
+      ([.resetLatch, .enq [.ev .capabilities], .drain 0, .setDbg .unload, .setModuleInfo,
+        .enq [.ev .process, .ev .moduleNew, .ev .sourceNew], .respond true, .drain 0], .ok)
   | .setBreakpoints =>
-    if badArgs r.cmd r.mutn then (s, [], .err)
+    if badArgs r.cmd r.mutn then ([], .err)
+    else if dbg == .none then ([.setBp 0], .err)                   -- `breakpoints_by_source.remove(..)` then `?`
     else
-      let prev := s.bpRecords
-      let s := { s with bpRecords := 0 }                       -- `breakpoints_by_source.remove(..)`
-      if s.dbg == .none then (s, [], .err)
-      else
-        let k := min r.param 3
-        let s := enqueue { s with bpRecords := k }
-          (List.replicate prev (.ev .bpRemoved) ++ List.replicate k (.ev .bpChanged))
-        let (s, d) := drain s
-        (s, [.resp r.cmd true r.seq] ++ d, .ok)
+      let k := min r.param 3
+      ([.setBp k, .enq (List.replicate bpRecords (.ev .bpRemoved) ++ List.replicate k (.ev .bpChanged)),
+        .respond true, .drain 0], .ok)
   | .configurationDone =>
-    match s.dbg with
+    match dbg with
     | .unload =>
       match h.outcome with
-      | .none => (s, [], .err)                                   -- `start_debugee_with_reason()?`
-      | _ => let (s, d) := emitStop s h; (s, [.resp r.cmd true r.seq] ++ d, .ok)
-    | _ => (s, [], .err)                                        -- no debugger, or `AlreadyRun`
+      | .none => ([], .err)                                        -- `start_debugee_with_reason()?`
+      | _ => (.respond true :: emitStop h, .ok)
+    | _ => ([], .err)                                             -- no debugger, or `AlreadyRun`
   | .threads =>
-    if s.dbg == .none then (s, [], .err)
-    else (enqueue s (threadEvents h), [.resp r.cmd true r.seq], .ok)   -- drained at the top of `run`
+    if dbg == .none then ([], .err)
+    else ([.enq (threadEvents h), .respond true], .ok)             -- drained at the top of `run`
   | .stackTrace =>
-    if badArgs r.cmd r.mutn then (s, [], .err)
-    else if s.dbg == .none then (s, [], .err)
-    else (s, [.resp r.cmd true r.seq], .ok)
+    if badArgs r.cmd r.mutn then ([], .err)
+    else if dbg == .none then ([], .err)
+    else ([.respond true], .ok)
   | .scopes =>
-    if s.dbg == .none then (s, [], .err)
-    else if badArgs r.cmd r.mutn then (s, [], .err)
-    else (s, [.resp r.cmd true r.seq], .ok)
+    if dbg == .none then ([], .err)
+    else if badArgs r.cmd r.mutn then ([], .err)
+    else ([.respond true], .ok)
   | .variables =>
-    if badArgs r.cmd r.mutn then (s, [], .err) else (s, [.resp r.cmd true r.seq], .ok)
+    if badArgs r.cmd r.mutn then ([], .err) else ([.respond true], .ok)
   | .evaluate =>
-    if badArgs r.cmd r.mutn then (s, [], .err)
-    else if s.dbg == .inProgress && h.evalOk then (s, [.resp r.cmd true r.seq], .ok)
-    else (s, [], .err)
+    if badArgs r.cmd r.mutn then ([], .err)
+    else if dbg == .inProgress && h.evalOk then ([.respond true], .ok)
+    else ([], .err)
   | .continue_ =>
     -- the response is sent BEFORE the fallible debugger call (control.rs handle_continue)
-    let (s, d) := drain (enqueue s [.ev .continued])
-    let pre := [Msg.resp r.cmd true r.seq] ++ d
-    if s.dbg != .inProgress then (s, pre, .err)
+    let pre : List Act := [.enq [.ev .continued], .respond true, .drain 0]
+    if dbg != .inProgress then (pre, .err)
     else match h.outcome with
-      | .none => (s, pre, .err)
-      | _ => let (s, d2) := emitStop s h; (s, pre ++ d2, .ok)
-  | .next | .stepIn | .stepOut => stepHandler s r h
+      | .none => (pre, .err)
+      | _ => (pre ++ emitStop h, .ok)
+  | .next | .stepIn | .stepOut => stepPlan dbg h
   | .pause =>
-    if s.dbg == .none then (s, [.resp r.cmd false r.seq], .ok)
-    else (enqueue s [.ev (.stopped "pause")], [.resp r.cmd true r.seq], .ok)
+    if dbg == .none then ([.respond false], .ok)
+    else ([.respond true, .enq [.ev (.stopped "pause")]], .ok)
   | .disconnect =>
-    if r.mutn == .valid || r.mutn == .nofile then
-      let (s, d) := terminateDebuggee s h
-      (s, [.resp r.cmd true r.seq] ++ d, .stop)
-    else ({ s with dbg := .none }, [.resp r.cmd true r.seq], .stop)      -- detach
-  | .terminate =>
-    let (s, d) := terminateDebuggee s h
-    (s, [.resp r.cmd true r.seq] ++ d, .stop)
+    if r.mutn == .valid || r.mutn == .nofile then (.respond true :: terminateDebuggee h, .stop)
+    else ([.respond true, .setDbg .none], .stop)                    -- detach
+  | .terminate => (.respond true :: terminateDebuggee h, .stop)
   | .terminateThreads =>
-    if badArgs r.cmd r.mutn then (s, [], .err)
-    else
-      let (s, d) := terminateDebuggee s h
-      (s, [.resp r.cmd true r.seq] ++ d, .ok)
-  | .frobnicate => (s, [.resp r.cmd false r.seq], .ok)                      -- `other => send_err`
+    if badArgs r.cmd r.mutn then ([], .err)
+    else (.respond true :: terminateDebuggee h, .ok)
+  | .frobnicate => ([.respond false], .ok)                        -- `other => send_err`
 
-/-- one iteration of `run` for a request: dispatch; `Err` ⇒ error response, continue; `Ok(false)` ⇒
-the loop ends; otherwise the `drain_events` at the top of the next iteration.  `none` when the session
-has already ended (the connection is closed). -/
+/-- the rule of `run`: `Err` ⇒ error response and continue; `Ok(false)` ⇒ leave the loop; otherwise
+continue — and continuing means `drain_events()` at the top of the next iteration -/
+def runRule : HRes → List Act
+  | .err => [.respond false, .drain 0]
+  | .ok => [.drain 0]
+  | .stop => [.endSession]
+
+/-- everything the session thread does for one request -/
+def fullPlan (s : Sess) (r : Req) (h : Hint) : List Act :=
+  (plan s.dbg s.bpRecords r h).1 ++ runRule (plan s.dbg s.bpRecords r h).2
+
+/-- one iteration of `run` for a request; `none` when the session has already ended -/
 def runStep (s : Sess) (r : Req) (h : Hint) : Option (Sess × List Msg) :=
-  if !s.alive then none
-  else
-    let (s, out, res) := dispatch s r h
-    match res with
-    | .err => let (s, d) := drain s; some (s, out ++ [.resp r.cmd false r.seq] ++ d)
-    | .stop => some ({ s with alive := false }, out ++ [.sessionEnd])
-    | .ok => let (s, d) := drain s; some (s, out ++ d)
+  if s.alive then some (exec r s (fullPlan s r h)) else none
 
 /-- a whole history: the answers, request by request (`none` = connection already closed) -/
 def runHistory : Sess → List (Req × Hint) → List (Option (List Msg))
@@ -310,14 +343,6 @@ def runHistory : Sess → List (Req × Hint) → List (Option (List Msg))
     match runStep s r h with
     | none => none :: runHistory s rest
     | some (s', out) => some out :: runHistory s' rest
-
-/-- the final state of a history -/
-def finalState : Sess → List (Req × Hint) → Sess
-  | s, [] => s
-  | s, (r, h) :: rest =>
-    match runStep s r h with
-    | none => finalState s rest
-    | some (s', _) => finalState s' rest
 
 /-- acceptor form (DESIGN 1.2.3): the model accepts a recorded wire, given as one list of messages per
 request, iff it is what the model writes for that history and those debuggee outcomes -/
@@ -330,22 +355,27 @@ def accepts (hist : List (Req × Hint)) (wire : List (Option (List Msg))) : Bool
 inductive Item
   | req (c : Cmd)
   | msg (m : Msg)
-  deriving Repr, DecidableEq, BEq
+  deriving Repr, DecidableEq
+
+/-- the flattened trace of a history: each request followed by what was written for it -/
+def trace : Sess → List (Req × Hint) → List Item
+  | _, [] => []
+  | s, (r, h) :: rest =>
+    match runStep s r h with
+    | none => trace s rest
+    | some (s', out) => Item.req r.cmd :: (out.map Item.msg ++ trace s' rest)
 
 inductive Life | fresh | exited | terminated
-  deriving Repr, DecidableEq, BEq
-
-def Msg.isEvent : Msg → Bool | .event _ => true | _ => false
+  deriving Repr, DecidableEq
 
 /-- the combined lifecycle monitor: `none` = violation.
 * a `launch` request opens a new lifecycle;
-* `exited` only in `fresh`; it must be followed by `terminated` before anything else is written;
-* `terminated` only in `fresh`/`exited`;
+* `exited` only in `fresh`, and `terminated` must follow before anything else is written or received;
+* `terminated` only in `fresh`/`exited` (at most once);
 * in `terminated` no event at all may be written (`strict`), or none except the non-queued
   `initialized` (`strict = false`). -/
 def lifeStep (strict : Bool) (st : Life) : Item → Option Life
-  | .req .launch => some .fresh
-  | .req _ => if st == .exited then none else some st
+  | .req .launch => if st == .exited then none else some .fresh
   | .msg (.event .exited) => if st == .fresh then some .exited else none
   | .msg (.event .terminated) => if st == .terminated then none else some .terminated
   | .msg (.event .initialized) =>
@@ -354,7 +384,7 @@ def lifeStep (strict : Bool) (st : Life) : Item → Option Life
     | .exited => none
     | .terminated => if strict then none else some .terminated
   | .msg (.event _) => if st == .fresh then some st else none
-  | .msg _ => if st == .exited then none else some st
+  | _ => if st == .exited then none else some st
 
 def lifeRun (strict : Bool) : Life → List Item → Option Life
   | st, [] => some st
@@ -362,7 +392,8 @@ def lifeRun (strict : Bool) : Life → List Item → Option Life
     | none => none
     | some st' => lifeRun strict st' rest
 
-/-- weaker monitor 1 (`C12_lifecycle_once`): only the lifecycle events are looked at -/
+/-- weaker monitor 1 (`C12_lifecycle_once`): only the lifecycle events are looked at:
+per lifecycle at most one `exited`, at most one `terminated`, never `exited` after `terminated` -/
 def onceStep (st : Life) : Item → Option Life
   | .req .launch => some .fresh
   | .msg (.event .exited) => if st == .fresh then some .exited else none
@@ -375,7 +406,8 @@ def onceRun : Life → List Item → Option Life
     | none => none
     | some st' => onceRun st' rest
 
-/-- weaker monitor 2 (`C12_silent_after_terminated`): after `terminated`, no event until a new launch -/
+/-- weaker monitor 2 (`C12_silent_after_terminated`): after `terminated`, no event until a new launch
+(`strict = false`: except `initialized`) -/
 def silentStep (strict : Bool) (st : Bool) : Item → Option Bool
   | .req .launch => some false
   | .msg (.event .terminated) => if st then none else some true
@@ -389,24 +421,28 @@ def silentRun (strict : Bool) : Bool → List Item → Option Bool
     | none => none
     | some st' => silentRun strict st' rest
 
-/-- the flattened trace of a history: each request followed by what was written for it -/
-def trace : Sess → List (Req × Hint) → List Item
-  | _, [] => []
-  | s, (r, h) :: rest =>
-    match runStep s r h with
-    | none => trace s rest
-    | some (s', out) => Item.req r.cmd :: out.map Item.msg ++ trace s' rest
-
-/-- number of responses in an answer -/
-def nResp : List Msg → Nat
-  | [] => 0
-  | .resp _ _ _ :: r => nResp r + 1
-  | _ :: r => nResp r
-
 /-- the responses of an answer -/
 def resps : List Msg → List Msg
   | [] => []
   | .resp c ok q :: r => .resp c ok q :: resps r
   | _ :: r => resps r
+
+/-- does the skeleton leave the `run` loop? -/
+def hasEnd : List Act → Bool
+  | [] => false
+  | .endSession :: _ => true
+  | _ :: r => hasEnd r
+
+/-- does the skeleton reset the `terminated` latch? -/
+def hasReset : List Act → Bool
+  | [] => false
+  | .resetLatch :: _ => true
+  | _ :: r => hasReset r
+
+/-- the `respond` actions of a skeleton -/
+def respondActs : List Act → List Bool
+  | [] => []
+  | .respond ok :: r => ok :: respondActs r
+  | _ :: r => respondActs r
 
 end BsVerif.Dap
